@@ -171,3 +171,62 @@ def check_M3(ctx, rep):
     if n == 0:
         raise Broken('no pattern walker (match on syn::Pat) found in ascent_macro')
     return n
+
+
+def check_M4(ctx, rep):
+    """the hygiene visitors over body items (`body_item_get_bound_vars`, `body_item_visit_bound_vars_mut`,
+    `body_item_visit_exprs_free_vars_mut`, ..) look into every part of a body clause that can hold a variable: the arm for
+    `BodyItemNode::Clause` touches every field of `BodyClauseNode` whose type carries expressions / patterns / conditions
+    (derived from the struct definition: today `args` and `cond_clauses`)."""
+    cr = ctx.lib('ascent_macro')
+    adt = None
+    for path, a in cr.adts.items():
+        if path.endswith('ascent_syntax::BodyClauseNode'):
+            adt = a
+    if adt is None:
+        raise Broken('ascent_syntax::BodyClauseNode not found')
+    carriers = [f['n'] for f in adt['variants'][0]['fields']
+                if any(t in (cr.s(f['ty']) or '') for t in ('BodyClauseArg', 'CondClause', 'Expr', 'Pat'))]
+    if len(carriers) < 2:
+        raise Broken('BodyClauseNode: expected at least the fields args and cond_clauses to carry variables, found %s' % carriers)
+    n = 0
+    for path, b in sorted(cr.bodies.items()):
+        if not b['name'].startswith('body_item_') or not b['params']:
+            continue
+        pty = cr.s(b['params'][0].get('t')) or ''
+        if 'BodyItemNode' not in pty:
+            continue
+        p0 = b['params'][0].get('id')
+        for x, _ in walk(b['tree']):
+            if x.get('k') != 'match':
+                continue
+            scr = chain_root(x['e'])
+            if scr is None or scr.get('id') != p0:
+                continue
+            for a in x['arms']:
+                is_clause = any(((y.get('path') or {}).get('d') or y.get('d') or '').endswith('BodyItemNode::Clause') for y, _ in walk(a['p']))
+                if not is_clause:
+                    continue
+                binds = {bb['id'] for bb in pat_bindings_(a['p'])}
+                touched = set()
+                for y, _ in walk(a['b']):
+                    if y.get('k') == 'field' and y['n'] in carriers:
+                        r = chain_root(y)
+                        if r is not None and r.get('id') in binds:
+                            touched.add(y['n'])
+                n += 1
+                missing = [f for f in carriers if f not in touched]
+                rep.inst('M4', '%s: the Clause arm looks into %s of BodyClauseNode (carriers of variables: %s)' % (path, sorted(touched), carriers))
+                rep.functions.add(path)
+                for f in missing:
+                    rep.viol('M4', path, 'clause-part-unvisited:' + f,
+                             '`%s` does not look into `%s` of a body clause: variables there are not renamed / not collected - a macro-local variable '
+                             'used in a condition attached to a clause keeps its source name while its binding occurrence is renamed' % (b['name'], f), loc=cr.loc(a['b']))
+    if n < 3:
+        raise Broken('M4: only %d body-item visitors with a Clause arm found' % n)
+    return n
+
+
+def pat_bindings_(p):
+    from tree import pat_bindings
+    return pat_bindings(p)
